@@ -484,8 +484,8 @@ func (c *CollectionFeature) Clone() Feature {
 	return &CollectionFeature{
 		CollectionID: c.CollectionID,
 		Tags:         c.Tags.Clone(),
-		Keys:         c.Keys,
-		Values:       c.Values,
+		Keys:         append([]interface{}(nil), c.Keys...),
+		Values:       append([]interface{}(nil), c.Values...),
 		sorted:       c.sorted,
 	}
 }
